@@ -158,8 +158,11 @@ def gen_statements(rng, n):
                 else:
                     d %= 2**32
                     if field == "lui":
-                        d = (d << 12) % 2**32
-                    want = d if field == "csr" else (d - 2**32 if d >= 2**31 else d)
+                        # the operand must fit the 20-bit field (unsigned or sign-extended), else it
+                        # is rejected on the literal; it is placed in the upper 20 bits
+                        sd = d - 2**32 if d >= 2**31 else d
+                        d = None if not (-2**19 <= sd < 2**20) else (d << 12) % 2**32
+                    want = None if d is None else (d if field == "csr" else (d - 2**32 if d >= 2**31 else d))
             out.append((tmpl.format(l) + "\n", col, field, l, want))
     for body in chars:
         l = "'" + body + "'"
@@ -169,7 +172,7 @@ def gen_statements(rng, n):
             want = char_denote(body)
             if want is not None and field == "lui":
                 want = (want << 12) % 2**32
-                want = want - 2**32 if want >= 2**31 else want
+                want = want - 2**32 if want >= 2**31 else want      # code points < 2^16 fit the field
             out.append((tmpl.format(l) + "\n", col, field, l, want))
     return out
 
